@@ -292,4 +292,462 @@ theorem findTranslations_inv (tbl : Aliases) (hs : List (List Str)) (hsh : trSho
   simpa [findTranslations] using this
 
 
+/-! ### the row loop: what one row appends is what is due for it -/
+
+theorem deprecated_pinned' : deprecatedTypes = documentedDeprecated := by decide
+
+/-- the part of `rowDue` that belongs to a typed, active row -/
+def typedDue (n : Nat) (rb : PRow) (t : Str) (pkeys : List Str) : List W :=
+  (if documentedDeprecated.contains t && t ≠ "audit".toList then [W.deprecated n t] else []) ++
+  (match Rows.matchControl "begin" true t with
+   | some ct => if !settingsTypes.contains t && t ≠ "audit".toList && (Rows.matchControl "end" false t).isNone
+                   && noLabelCond rb ct then [W.noLabel n ct] else []
+   | none => []) ++
+  (if plainQuestion t && isSelectExternal t && !keyIn rb "choice_filter" then [W.extNoFilter n] else []) ++
+  (if plainQuestion t && (Rows.matchSelect t).isNone && t = "photo".toList && !pkeys.contains "max-pixels".toList
+   then [W.noMaxPixels n] else [])
+
+theorem rowDue_typed (n : Nat) (r0 : PRow) (t : Str) (pkeys : List Str)
+    (hact : active r0 = true) (hne : t ≠ []) (hty : rowType r0 = some t)
+    (hpk : paramKeys ((val1 (body r0) "parameters").getD []) = some pkeys) :
+    rowDue n r0 = (if keyIn r0 "disabled" then [W.disabled n] else []) ++ typedDue n (body r0) t pkeys := by
+  have htyped : typed r0 = true := by
+    cases t with
+    | nil => exact absurd rfl hne
+    | cons c cs => simp [typed, hty]
+  simp only [rowDue, typedDue, skippedTrig, deprecatedTrig, noLabelTrig, extNoFilterTrig, noMaxPixelsTrig,
+    hact, htyped, hty, hpk, Bool.true_and, Bool.not_true, Bool.false_and, Option.getD_some, List.append_assoc]
+  congr 1
+  simp
+  cases hb : Rows.matchControl "begin" true t <;> simp
+
+/-- the or_other flag of a typed row -/
+def typedOther (t : Str) : Bool :=
+  plainQuestion t && (match Rows.matchSelect t with | some (_, _, o) => o | none => false)
+
+theorem typedOut_eq (n : Nat) (rb : PRow) (t : Str) (pkeys : List Str) (o : RowOut)
+    (h : typedOut n rb t pkeys = .ok o) :
+    o.ws = typedDue n rb t pkeys ∧ o.orOther = typedOther t := by
+  unfold typedOut at h
+  rw [deprecated_pinned'] at h
+  unfold typedDue typedOther plainQuestion isSelectExternal
+  generalize "audit".toList = A at *
+  generalize "photo".toList = P at *
+  generalize "loop".toList = L at *
+  generalize "select one external".toList = E at *
+  generalize "max-pixels".toList = M at *
+  by_cases ha : t = A
+  · simp only [ha, if_true] at h
+    cases h
+    subst ha
+    simp
+    split <;> simp
+  · simp only [ha, if_false] at h
+    by_cases hs : settingsTypes.contains t = true
+    · simp only [hs, if_true] at h
+      cases h
+      have hsm : t ∈ settingsTypes := by simpa using hs
+      simp [ha, hsm]
+      split <;> rfl
+    · simp only [hs] at h
+      have hs' : t ∉ settingsTypes := by simpa using hs
+      cases he : Rows.matchControl "end" false t with
+      | some e =>
+        simp only [he, Option.isSome_some, if_true] at h
+        cases h
+        simp [ha, hs', he]
+        split <;> simp
+      | none =>
+        simp only [he, Option.isSome_none, Bool.false_eq_true, if_false] at h
+        cases hb : Rows.matchControl "begin" true t with
+        | some ct =>
+          simp only [hb] at h
+          split at h
+          · cases h
+          · split at h
+            · cases h
+            · cases h
+              simp [ha, hs', he, hb]
+        | none =>
+          simp only [hb] at h
+          cases hm : Rows.matchSelect t with
+          | some x =>
+            obtain ⟨sel, ln, other⟩ := x
+            simp only [hm] at h
+            cases h
+            simp [ha, hs', he, hb, hm]
+          | none =>
+            simp only [hm] at h
+            cases h
+            simp [ha, hs', he, hb, hm]
+
+theorem orOtherRow_typed (r0 : PRow) (t : Str) (hact : active r0 = true) (hne : t ≠ []) (hty : rowType r0 = some t) :
+    orOtherRow r0 = typedOther t := by
+  have htyped : typed r0 = true := by
+    cases t with
+    | nil => exact absurd rfl hne
+    | cons c cs => simp [typed, hty]
+  simp only [orOtherRow, typedOther, hact, htyped, hty, Bool.true_and]
+  rfl
+
+/-- **One row.**  What the loop body appends for row `n` is exactly what is due for it. -/
+theorem rowOut_ok (n : Nat) (r0 : PRow) (o : RowOut) (h : rowOut n r0 = .ok o) :
+    o.ws = rowDue n r0 ∧ o.orOther = orOtherRow r0 := by
+  unfold rowOut at h
+  split at h
+  · cases h
+  · simp only at h
+    by_cases hd : disabledYes r0 = true
+    · simp only [hd, if_true] at h
+      cases h
+      simp [rowDue, skippedTrig, deprecatedTrig, noLabelTrig, extNoFilterTrig, noMaxPixelsTrig,
+        orOtherRow, active, hd]
+      split <;> simp
+      split <;> rfl
+    · have hd' : disabledYes r0 = false := by simpa using hd
+      simp only [hd', Bool.false_eq_true, if_false] at h
+      by_cases hempty : (body r0).isEmpty = true
+      · simp only [hempty, if_true] at h
+        cases h
+        simp [rowDue, skippedTrig, deprecatedTrig, noLabelTrig, extNoFilterTrig, noMaxPixelsTrig,
+          orOtherRow, active, hd', hempty]
+        split <;> simp
+        split <;> rfl
+      · have hne' : (body r0).isEmpty = false := by simpa using hempty
+        have hact : active r0 = true := by simp [active, hd', hne']
+        simp only [hne', Bool.false_eq_true, if_false] at h
+        split at h
+        · cases h
+        · split at h
+          · -- no type cell
+            rename_i hty
+            split at h
+            · cases h
+              rename_i hnl
+              simp [rowDue, skippedTrig, deprecatedTrig, noLabelTrig, extNoFilterTrig, noMaxPixelsTrig,
+                orOtherRow, hact, typed, hty, hnl]
+            · cases h
+          · rename_i hty
+            split at h
+            · cases h
+              rename_i hnl
+              simp [rowDue, skippedTrig, deprecatedTrig, noLabelTrig, extNoFilterTrig, noMaxPixelsTrig,
+                orOtherRow, hact, typed, hty, hnl]
+              exact ⟨by decide, by split <;> rfl⟩
+            · cases h
+          · rename_i c cs hty
+            split at h
+            · cases h
+            · split at h
+              · cases h
+              · rename_i pkeys hpk
+                split at h
+                · rename_i o' ho'
+                  cases h
+                  obtain ⟨h1, h2⟩ := typedOut_eq n (body r0) (c :: cs) pkeys o' ho'
+                  rw [rowDue_typed n r0 (c :: cs) pkeys hact (by simp) hty hpk,
+                    orOtherRow_typed r0 (c :: cs) hact (by simp) hty]
+                  exact ⟨by simp [h1], h2⟩
+                · cases h
+
+theorem rowLoop_ok : ∀ (rs : List PRow) (n : Nat) (st st' : St), rowLoop n rs st = .ok st' →
+    st'.warnings = st.warnings ++ rowsDue n rs ∧ st'.orOther = (st.orOther || rs.any orOtherRow)
+  | [], n, st, st', h => by
+    simp only [rowLoop, Except.ok.injEq] at h
+    subst h; simp [rowsDue]
+  | r :: rs, n, st, st', h => by
+    simp only [rowLoop, rowStep] at h
+    cases ho : rowOut n r with
+    | error e => simp [ho] at h
+    | ok o =>
+      simp only [ho] at h
+      obtain ⟨h1, h2⟩ := rowOut_ok n r o ho
+      obtain ⟨h3, h4⟩ := rowLoop_ok rs (n + 1) _ st' h
+      simp [h3, h4, h1, h2, rowsDue, Bool.or_assoc]
+
+theorem mem_rowsDue (w : W) : ∀ (rs : List PRow) (n : Nat),
+    w ∈ rowsDue n rs ↔ ∃ i r, rs[i]? = some r ∧ w ∈ rowDue (n + i) r
+  | [], n => by simp [rowsDue]
+  | r :: rs, n => by
+    simp only [rowsDue, List.mem_append, mem_rowsDue w rs (n + 1)]
+    constructor
+    · rintro (h | ⟨i, r', hi, hw⟩)
+      · exact ⟨0, r, by simp, by simpa using h⟩
+      · exact ⟨i + 1, r', by simpa using hi, by rw [show n + (i + 1) = n + 1 + i by omega]; exact hw⟩
+    · rintro ⟨i, r', hi, hw⟩
+      cases i with
+      | zero => simp at hi; subst hi; left; simpa using hw
+      | succ j =>
+        right
+        exact ⟨j, r', by simpa using hi, by rw [show n + 1 + j = n + (j + 1) by omega]; exact hw⟩
+
+
+/-- the rows loop is a writer: a prefix of the warnings list is carried along untouched -/
+theorem rowLoop_frame (w0 : List W) : ∀ (rs : List PRow) (n : Nat) (st : St),
+    rowLoop n rs { st with warnings := w0 ++ st.warnings } =
+      (rowLoop n rs st).map (fun s => { s with warnings := w0 ++ s.warnings })
+  | [], n, st => by simp [rowLoop, Except.map]
+  | r :: rs, n, st => by
+    simp only [rowLoop, rowStep]
+    cases ho : rowOut n r with
+    | error e => simp [Except.map]
+    | ok o =>
+      simp only []
+      have := rowLoop_frame w0 rs (n + 1) { warnings := st.warnings ++ o.ws, orOther := st.orOther || o.orOther, kept := st.kept ++ o.kept }
+      simp only [List.append_assoc] at this ⊢
+      exact this
+
+/-- the spelling check for one sheet name: the warning, if any -/
+def misspellW (lower : Str → Str) (key : String) (names : List Str) : List W :=
+  match findSheetMisspellings lower supported key.toList names with
+  | some c => [W.misspell key.toList c]
+  | none => []
+
+/-- the warnings emitted before the row loop, from an empty list -/
+def preRows (lower : Str → Str) (wb : WB) (v : View) (chW : List W) : List W :=
+  (if wb.settingsRows > 0 then
+      (if wb.settingsHeader.contains "id_string".toList && wb.settingsHeader.contains "form_id".toList
+       then [W.dupId] else [])
+    else misspellW lower "settings" wb.sheetNames) ++
+  (if wb.choices.isEmpty then [] else choiceHeaderWarnings v.chHeaders ++ chW) ++
+  (if wb.hasEntities then [] else misspellW lower "entities" wb.sheetNames) ++
+  missingCheck (findTranslations surveyTrTable v.svHeaders) (findTranslations choicesTrTable v.chHeaders)
+
+/-- `convertOn` in writer form -/
+theorem convertOn_eq (lower : Str → Str) (wb : WB) (v : View) (w0 : List W) :
+    convertOn lower wb v w0 =
+      match choicesWarnings (groupChoices (numberFrom 2 v.chRows)) with
+      | .error e => .error e
+      | .ok chW =>
+        match rowLoop 2 v.svRows { warnings := w0 ++ preRows lower wb v chW } with
+        | .error e => .error e
+        | .ok st => .ok ({ kept := st.kept, orOther := st.orOther },
+            st.warnings ++ orOtherCheck st.orOther (findTranslations surveyTrTable v.svHeaders)
+              (findTranslations choicesTrTable v.chHeaders)) := by
+  unfold convertOn preRows misspellW
+  cases choicesWarnings (groupChoices (numberFrom 2 v.chRows)) with
+  | error e => rfl
+  | ok chW =>
+    simp only []
+    have key : ∀ X Y : List W, X = Y →
+        (match rowLoop 2 v.svRows { warnings := X } with
+          | .error e => (.error e : Except Stop (Res × List W))
+          | .ok st => .ok ({ kept := st.kept, orOther := st.orOther },
+              st.warnings ++ orOtherCheck st.orOther (findTranslations surveyTrTable v.svHeaders)
+                (findTranslations choicesTrTable v.chHeaders))) =
+        (match rowLoop 2 v.svRows { warnings := Y } with
+          | .error e => .error e
+          | .ok st => .ok ({ kept := st.kept, orOther := st.orOther },
+              st.warnings ++ orOtherCheck st.orOther (findTranslations surveyTrTable v.svHeaders)
+                (findTranslations choicesTrTable v.chHeaders))) := by
+      intro X Y h; rw [h]
+    apply key
+    by_cases h1 : wb.settingsRows > 0 <;>
+    by_cases h2 : (wb.settingsHeader.contains "id_string".toList && wb.settingsHeader.contains "form_id".toList) = true <;>
+    by_cases h3 : wb.choices.isEmpty = true <;>
+    by_cases h4 : wb.hasEntities = true <;>
+    cases h5 : findSheetMisspellings lower supported "settings".toList wb.sheetNames <;>
+    cases h6 : findSheetMisspellings lower supported "entities".toList wb.sheetNames <;>
+    simp only [h1, h2, h3, h4, if_true, if_false, List.append_assoc, List.nil_append, List.append_nil,
+      Bool.false_eq_true]
+
+
+/-! ### unlabeled choices -/
+
+theorem choiceListWarnings_mem : ∀ (opts : List (Nat × PRow)) (ws : List W), choiceListWarnings opts = .ok ws →
+    ∀ w, w ∈ ws ↔ ∃ nr ∈ opts, keyIn nr.2 "label" = false ∧ w = W.choiceNoLabel nr.1
+  | [], ws, h, w => by simp [choiceListWarnings] at h; subst h; simp
+  | (n, r) :: rest, ws, h, w => by
+    unfold choiceListWarnings at h
+    split at h
+    · cases h
+    · cases hr : choiceListWarnings rest with
+      | error e => simp [hr] at h
+      | ok ws' =>
+        simp only [hr, Except.ok.injEq] at h
+        have ih := choiceListWarnings_mem rest ws' hr w
+        subst h
+        by_cases hl : keyIn r "label" = true
+        · simp [hl, ih]
+        · have hl' : keyIn r "label" = false := by simpa using hl
+          simp [hl', ih]
+
+theorem choicesWarnings_mem : ∀ (gs : List (Str × List (Nat × PRow))) (ws : List W), choicesWarnings gs = .ok ws →
+    ∀ w, w ∈ ws ↔ ∃ g ∈ gs, ∃ nr ∈ g.2, keyIn nr.2 "label" = false ∧ w = W.choiceNoLabel nr.1
+  | [], ws, h, w => by simp [choicesWarnings] at h; subst h; simp
+  | (ln, opts) :: rest, ws, h, w => by
+    unfold choicesWarnings at h
+    cases h1 : choiceListWarnings opts with
+    | error e => simp [h1] at h
+    | ok w1 =>
+      cases h2 : choicesWarnings rest with
+      | error e => simp [h1, h2] at h
+      | ok w2 =>
+        simp only [h1, h2, Except.ok.injEq] at h
+        subst h
+        simp [choiceListWarnings_mem opts w1 h1 w, choicesWarnings_mem rest w2 h2 w]
+
+def gstep (acc : List (Str × List (Nat × PRow))) (nr : Nat × PRow) : List (Str × List (Nat × PRow)) :=
+  match val1 nr.2 "list name" with
+  | none => acc
+  | some ln =>
+    if acc.any (fun e => e.1 = ln) then acc.map fun e => if e.1 = ln then (e.1, e.2 ++ [nr]) else e
+    else acc ++ [(ln, [nr])]
+
+theorem groupChoices_eq (rows : List (Nat × PRow)) : groupChoices rows = rows.foldl gstep [] := rfl
+
+theorem gstep_mem (acc : List (Str × List (Nat × PRow))) (nr x : Nat × PRow) :
+    (∃ g ∈ gstep acc nr, x ∈ g.2) ↔ (∃ g ∈ acc, x ∈ g.2) ∨ (x = nr ∧ (val1 nr.2 "list name").isSome = true) := by
+  unfold gstep
+  cases hln : val1 nr.2 "list name" with
+  | none => simp
+  | some ln =>
+    simp only [Option.isSome_some, and_true]
+    split
+    · rename_i hany
+      simp only [List.any_eq_true, decide_eq_true_eq] at hany
+      obtain ⟨e0, he0, hk0⟩ := hany
+      constructor
+      · rintro ⟨g, hg, hx⟩
+        rw [List.mem_map] at hg
+        obtain ⟨e, he, rfl⟩ := hg
+        by_cases hk : e.1 = ln
+        · simp only [hk, if_true, List.mem_append, List.mem_singleton] at hx
+          rcases hx with hx | hx
+          · exact Or.inl ⟨e, he, hx⟩
+          · exact Or.inr hx
+        · simp only [hk, if_false] at hx
+          exact Or.inl ⟨e, he, hx⟩
+      · rintro (⟨g, hg, hx⟩ | rfl)
+        · refine ⟨_, List.mem_map.mpr ⟨g, hg, rfl⟩, ?_⟩
+          by_cases hk : g.1 = ln
+          · simp [hk, hx]
+          · simp [hk, hx]
+        · exact ⟨_, List.mem_map.mpr ⟨e0, he0, rfl⟩, by simp [hk0]⟩
+    · constructor
+      · rintro ⟨g, hg, hx⟩
+        rw [List.mem_append, List.mem_singleton] at hg
+        rcases hg with hg | rfl
+        · exact Or.inl ⟨g, hg, hx⟩
+        · exact Or.inr (by simpa using hx)
+      · rintro (⟨g, hg, hx⟩ | rfl)
+        · exact ⟨g, List.mem_append_left _ hg, hx⟩
+        · exact ⟨(ln, [x]), by simp, by simp⟩
+
+theorem foldl_gstep_mem : ∀ (rows : List (Nat × PRow)) (acc : List (Str × List (Nat × PRow))) (x : Nat × PRow),
+    (∃ g ∈ rows.foldl gstep acc, x ∈ g.2) ↔
+      (∃ g ∈ acc, x ∈ g.2) ∨ (x ∈ rows ∧ (val1 x.2 "list name").isSome = true)
+  | [], acc, x => by simp
+  | nr :: rows, acc, x => by
+    simp only [List.foldl_cons, foldl_gstep_mem rows (gstep acc nr) x, gstep_mem, List.mem_cons]
+    constructor
+    · rintro ((h | ⟨rfl, h⟩) | ⟨h1, h2⟩)
+      · exact Or.inl h
+      · exact Or.inr ⟨Or.inl rfl, h⟩
+      · exact Or.inr ⟨Or.inr h1, h2⟩
+    · rintro (h | ⟨rfl | h1, h2⟩)
+      · exact Or.inl (Or.inl h)
+      · exact Or.inl (Or.inr ⟨rfl, h2⟩)
+      · exact Or.inr ⟨h1, h2⟩
+
+
+/-! ### or_other × translations -/
+
+theorem addSeen_keys_nodup (seen : List (Str × List Str)) (l n : Str) (h : (seen.map (·.1)).Nodup) :
+    ((addSeen seen l n).map (·.1)).Nodup := by
+  unfold addSeen
+  split
+  · have : (seen.map fun e => if e.1 = l then (e.1, e.2 ++ [n]) else e).map (·.1) = seen.map (·.1) := by
+      rw [List.map_map]; apply List.map_congr_left; intro e _; simp only [Function.comp]; split <;> rfl
+    rw [this]; exact h
+  · rename_i hany
+    simp only [List.any_eq_true, decide_eq_true_eq, not_exists, not_and] at hany
+    rw [List.map_append, List.nodup_append]
+    refine ⟨h, by simp, ?_⟩
+    intro a ha b hb
+    simp only [List.map_cons, List.map_nil, List.mem_singleton] at hb
+    rw [List.mem_map] at ha
+    obtain ⟨e, he, rfl⟩ := ha
+    rw [hb]; exact hany e he
+
+theorem trHead_keys_nodup (tbl : Aliases) (t : Tr) (hd : List Str) (h : (t.seen.map (·.1)).Nodup) :
+    ((trHead tbl t hd).seen.map (·.1)).Nodup := by
+  unfold trHead
+  split
+  · exact h
+  · split
+    · exact h
+    · simp only
+      split
+      · exact addSeen_keys_nodup _ _ _ h
+      · exact addSeen_keys_nodup _ _ _ h
+      · exact h
+
+theorem findTranslations_keys_nodup (tbl : Aliases) (hs : List (List Str)) :
+    ((findTranslations tbl hs).seen.map (·.1)).Nodup := by
+  unfold findTranslations
+  have : ∀ (hs : List (List Str)) (t : Tr), (t.seen.map (·.1)).Nodup →
+      ((hs.foldl (fun t h => trHead tbl t (trStrip h)) t).seen.map (·.1)).Nodup := by
+    intro hs
+    induction hs with
+    | nil => intro t h; exact h
+    | cons hd tl ih => intro t h; exact ih _ (trHead_keys_nodup tbl t _ h)
+  exact this hs {} (by simp)
+
+/-- `seen_default_only()` says exactly that no translatable column carries a language -/
+theorem seenDefaultOnly_iff (t : Tr) (ps : List (Str × Str)) (inv : TrInv t ps)
+    (hnd : (t.seen.map (·.1)).Nodup) : seenDefaultOnly t = !translated ps := by
+  have hkeys := inv.keys
+  cases hseen : t.seen with
+  | nil =>
+    have : ∀ p ∈ ps, False := by
+      intro p hp
+      obtain ⟨e, he, _⟩ := (hkeys p.2).mpr ⟨p.1, hp⟩
+      rw [hseen] at he; cases he
+    have hps : ps = [] := by
+      cases ps with
+      | nil => rfl
+      | cons p _ => exact (this p (by simp)).elim
+    simp [seenDefaultOnly, hseen, translated, hps]
+  | cons e rest =>
+    by_cases htr : translated ps = true
+    · -- some language other than default is used: either the head key or a second key
+      simp only [translated, List.any_eq_true, decide_eq_true_eq] at htr
+      obtain ⟨p, hp, hne⟩ := htr
+      obtain ⟨e', he', hk'⟩ := (hkeys p.2).mpr ⟨p.1, hp⟩
+      have : seenDefaultOnly t = false := by
+        simp only [seenDefaultOnly, hseen, List.isEmpty_cons, Bool.false_or, Bool.and_eq_false_iff]
+        by_cases hlen : rest = []
+        · left
+          subst hlen
+          rw [hseen] at he'
+          simp only [List.mem_singleton] at he'
+          subst he'
+          simp [hk', hne]
+        · right
+          cases rest with
+          | nil => exact absurd rfl hlen
+          | cons _ _ => simp
+      simp [this, translated, List.any_eq_true]
+      exact ⟨p.1, p.2, hp, hne⟩
+    · have htr' : translated ps = false := by simpa using htr
+      -- every key is `default`, keys are distinct: exactly one entry
+      have hall : ∀ e' ∈ t.seen, e'.1 = defaultLang := by
+        intro e' he'
+        obtain ⟨c, hc⟩ := (hkeys e'.1).mp ⟨e', he', rfl⟩
+        simp only [translated, List.any_eq_false, decide_eq_true_eq] at htr'
+        exact Classical.byContradiction fun hne => htr' _ hc hne
+      have hrest : rest = [] := by
+        cases rest with
+        | nil => rfl
+        | cons e2 r2 =>
+          rw [hseen] at hnd hall
+          simp only [List.map_cons, List.nodup_cons, List.mem_cons, not_or] at hnd
+          have h1 := hall e (by simp)
+          have h2 := hall e2 (by simp)
+          exact absurd (h1.trans h2.symm) hnd.1.1
+      have he := hall e (by rw [hseen]; simp)
+      simp [seenDefaultOnly, hseen, hrest, he, htr']
+
+
 end Pyxv.Warn
